@@ -7,7 +7,7 @@ OUT=$WT/_out/$K
 cd $WT || exit 2
 git checkout -q -- . ; git apply $OUT/patch.diff || { echo "PATCH DOES NOT APPLY"; exit 2; }
 make -j8 > /tmp/mut_make.log 2>&1 || { echo "BUILD FAILS"; tail -5 /tmp/mut_make.log; }
-TESTS=$(make -j8 check 2>&1 | grep -E '^# (PASS|FAIL|ERROR)' | paste -sd' ')
+TESTS=$(unshare -n sh -c 'ip link set lo up && make -j8 check' 2>&1 | grep -E '^# (PASS|FAIL|ERROR)' | paste -sd' ')
 echo "tests with change: $TESTS"
 DEMO=$(ls $OUT/demo.* | head -1)
 run_demo() { if [[ $DEMO == *.py ]]; then PM_ROOT=$WT timeout 300 python3 $DEMO > /tmp/mut_demo.log 2>&1; else PM_ROOT=$WT timeout 300 bash $DEMO > /tmp/mut_demo.log 2>&1; fi; echo $?; }
